@@ -157,6 +157,8 @@ type runner struct {
 	tsMap   map[uint64]uint64
 	offset  int64 // model ts - real ts for commits of the current epoch
 	mnext   uint64 // the model's nextTs
+	nrot    int    // master-key rotations performed by this process
+	mute    bool   // observations with several allowed outcomes are left out of the digest
 	now     uint64
 	prefetc bool
 	psize   int
@@ -344,6 +346,9 @@ func (r *runner) itemObs(it *badger.Item) (Res, []byte, error) {
 // cmpRes compares a real observation with the predicted one (t = transaction, -1 none).
 func (r *runner) cmpRes(want Res, got Res, gotRaw []byte, t int) string {
 	if want.Found != got.Found {
+		if got.Found {
+			return fmt.Sprintf("resurrectedKey: predicted invisible, got v%d@%d", got.Val, got.Ts)
+		}
 		return fmt.Sprintf("found: want %v got %v", want.Found, got.Found)
 	}
 	if !want.Found {
@@ -353,6 +358,9 @@ func (r *runner) cmpRes(want Res, got Res, gotRaw []byte, t int) string {
 		if len(gotRaw) != 0 {
 			return fmt.Sprintf("value: delete marker carries a value %q", trunc(gotRaw))
 		}
+	} else if want.Dead && len(gotRaw) == 0 {
+		// an expired version shown by AllVersions: value-log GC discards the values of expired
+		// entries (value.go discardEntry), so the value may legitimately be gone
 	} else {
 		if want.Val != got.Val {
 			return fmt.Sprintf("value: want v%d got %q", want.Val, trunc(gotRaw))
@@ -391,6 +399,12 @@ func trunc(b []byte) string {
 }
 
 func (r *runner) note(format string, a ...interface{}) {
+	if r.mute {
+		return
+	}
+	if os.Getenv("KVREPLAY_NOTES") != "" {
+		fmt.Fprintf(os.Stderr, format+"\n", a...)
+	}
 	h := sha256.New()
 	h.Write(r.digest[:])
 	fmt.Fprintf(h, format, a...)
@@ -622,7 +636,9 @@ func (r *runner) step(i int, s Step) *mismatch {
 			o = &Opts{Rev: s.Rev, Seek: s.From, Pmode: "none"}
 		}
 		oi := r.newIter(r.txns[s.T], *o, s.T)
+		r.mute = o.All && s.Hw > 0 // several outcomes are allowed: not part of the digest
 		got, raws, m := oi.run(r)
+		r.mute = false
 		oi.it.Close()
 		if m != nil {
 			return m
@@ -640,7 +656,9 @@ func (r *runner) step(i int, s Step) *mismatch {
 		}
 		oi := r.iters[s.T]
 		delete(r.iters, s.T)
+		r.mute = oi.o.All && s.Hw > 0
 		got, raws, m := oi.run(r)
+		r.mute = false
 		oi.it.Close()
 		if m != nil {
 			return m
@@ -672,7 +690,9 @@ func (r *runner) step(i int, s Step) *mismatch {
 		}
 		txn := r.latestTxn()
 		oi := r.newIter(txn, Opts{All: true, Pmode: "none"}, -1)
+		r.mute = s.Hw > 0
 		got, raws, m := oi.run(r)
+		r.mute = false
 		oi.it.Close()
 		txn.Discard()
 		if m != nil {
@@ -718,6 +738,14 @@ func (r *runner) resync() *mismatch {
 	}
 	// the model's next commit timestamp keeps counting across the re-open
 	r.offset = int64(r.mnext) - int64(st.NextTxnTs)
+	// Real timestamps at or above the new nextTxnTs will be handed out again (compaction may
+	// have dropped the newest versions, e.g. tombstones): the versions of the earlier epoch
+	// that carried them are no longer stored (asserted just above), forget their mapping.
+	for m, rr := range r.tsMap {
+		if rr >= st.NextTxnTs {
+			delete(r.tsMap, m)
+		}
+	}
 	return nil
 }
 
